@@ -292,15 +292,18 @@ PROPS["C03"] = {
 
 PROPS["C08"] = {
     "harnesses": [
-        {"pkg": "sqlite", "dir": "sqlite", "entry": "VerifH_C08_roundtrip", "extra": [("s3db_export", ".")], "no_native": True,
+        {"pkg": "sqlite", "dir": "sqlite", "entry": "VerifH_C08_roundtrip", "extra": [("s3db_export", ".")], "no_native": True, "reach": ["end", "refused"],
          "quick": {"params": "maxlen=2", "workers": 16, "timeout": 1200},
          "thorough": {"params": "maxlen=4", "workers": 16, "timeout": 3600}},
+        {"pkg": ".", "dir": "s3db", "entry": "VerifH_selfcheck_utf8", "reach": ["end", "invalid"],
+         "quick": {"params": "maxlen=2", "workers": 16, "timeout": 600, "validate": 12, "samples": 12},
+         "thorough": {"params": "maxlen=4", "workers": 16, "timeout": 3600, "validate": 24, "samples": 24}},
         {"pkg": "sqlite", "dir": "sqlite", "entry": "VerifH_C08_update", "extra": [("s3db_export", ".")], "no_native": True,
          "quick": {"workers": 16, "timeout": 1200}},
     ],
-    "bounds": {"quick": "one value in key or non-key position: any int64, any non-NaN float64 bit pattern (incl. -0.0, infinities), TEXT/BLOB of 0..2 symbolic bytes, NULL; written through the sqlite layer, committed, read back by the writer and by another connection after re-open",
+    "bounds": {"quick": "one value in key or non-key position: any int64, any non-NaN float64 bit pattern (incl. -0.0, infinities), TEXT/BLOB of 0..2 symbolic bytes (every byte string, valid UTF-8 or not: UTF-8 decoding is symbolic), NULL; written through the sqlite layer, committed, read back by the writer and by another connection after re-open; UPDATE of a stored value by a value of every storage class (one symbolic byte of TEXT/BLOB)",
                "thorough": "TEXT/BLOB 0..4 bytes"},
-    "outside": "protobuf wire encoding (opaque codec with proto3 presence rules), UTF-8 validation, cgo marshalling; merge and vacuum fidelity are covered by C02's value comparison and C16's codec harness",
+    "outside": "protobuf wire encoding (opaque codec with proto3 presence rules and the UTF-8 validity check of string fields), cgo marshalling; merge and vacuum fidelity are covered by C02's value comparison and C16's codec harness",
     "assumptions": [TIME_RANGE, "riyazali's ResultText passes a NULL pointer for the empty string (modelled: SQLite then returns NULL)", "engine-only harness (package sqlite)"],
 }
 
